@@ -8,6 +8,11 @@ impl InnerNodeManage {
     pub open spec fn nodes_wf(&self) -> bool {
         forall|k: u64| #[trigger] self.all_nodes@.contains_key(k) ==> self.all_nodes@[k].id == k
     }
+    /// the range this node answers with is the one its view gives (rank among the valid nodes, number of valid nodes)
+    pub open spec fn range_in_sync(&self) -> bool {
+        if self.all_nodes@.dom().len() == 0 { self.current_range.index == 0 && self.current_range.len == 1 }
+        else { self.current_range.len == self.valid_nodes().len() && self.current_range.index == self.valid_below().len() }
+    }
     pub open spec fn valid_nodes(&self) -> Set<ClusterInnerNode> {
         self.all_nodes@.values().filter(|v: ClusterInnerNode| node_valid(v))
     }
